@@ -139,6 +139,9 @@ KNOWN = [
 # documentation only: the runner ignores them.
 NOTED = [
  ("C18", "smoothing steps of a frame field on a closed surface whose order-n connection is trivial (order 4 on the octahedron's vertices, even orders on the tetrahedron's faces): lap - alpha*A with alpha = first non-zero eigenvalue of the scalar problem is exactly singular; spsolve returns finite garbage or NaN depending on round-off and on ARPACK's start vector (1 of 20 seeds in the default configuration). More generally the smoothing step is an implicit heat step with a negative time step (indefinite matrix); the positive-definite form (lap + alpha*A) is a behaviour change of every smoothed field. These executions are excluded from C18 by a predicate on the independently assembled operator (closed, nothing constrained, n_smooth>0, smallest eigenvalue of the connection Laplacian < 1e-9 x the largest) and counted (excluded_singular_smoothing_system)."),
+ ("C07", "the documented `dense` option of 8 functions of mouette.attributes is ignored when persistent=True (face_normals, face_barycenter, face_circumcenter, triangle_aspect_ratio always store sparsely; corner_angles, cotangent, edge_length, edge_middle_point always densely); the values are right, only the storage class differs, which C07 does not state; honouring the option would change the storage type of default calls. Also three docstrings name another default than the signature (border_normals dense, triangle_aspect_ratio dense, face_circumcenter name)."),
+ ("C05", "DataContainer.register_array_as_attribute tests config.display_duplicate_attribute_warning with the opposite polarity of create_attribute: under the default configuration registering over an existing name warns, does not register and returns None although the docstring says the attribute is overridden (a second BFF run on one mesh keeps the old uv attribute). Outside the C05 statement; not exercised."),
+ ("C08", "volume_weight_matrix / volume_weight_matrix_cells document 'format ... Defaults to dia.' while the signature default, the annotation and the sibling functions say csc (documentation only)."),
  ("C14", "sphere_fibonacci(n, radius < ~4.6e-10) returns a broken triangulation: qhull's 'QJ' joggle has an absolute floor (~6.7e-12), so the joggled hull of a tiny sphere is garbage (repair: take the hull of the unit sample). C14's unit-of-length deviation runs this generator down to 2^-30 only and says so."),
 ]
 
